@@ -939,6 +939,22 @@ func (fr *Frame) unop(b *ssa.BasicBlock, x *ssa.UnOp, st *State) {
 				return
 			}
 		}
+		if fv, ok := x.X.(*ssa.FreeVar); ok {
+			for i, f := range fr.fn.FreeVars {
+				if f == fv && fe.eng.freeVarReadOnly(fr.fn, i) {
+					// read-only captured variable: one constant per activation
+					n := fr.prefix + "cv_" + mangle(fv.Name())
+					k := fe.sorts.SortOf(x.Type())
+					fe.declConst(n, k)
+					if !fe.cvSeen[n] {
+						fe.cvSeen[n] = true
+						fe.assumeTypeInv(n, x.Type())
+					}
+					fr.vals[x] = Term{n, k, x.Type()}
+					return
+				}
+			}
+		}
 		t := fr.setVal(x, fe.loadAddr(st, a))
 		fe.assumeLoadedInv(t, x)
 	case token.NOT:
